@@ -57,18 +57,21 @@ def run(chk):
         hist = c18.rand_history(rng, d2, 3, list(range(0, N + 1)), 0.1, 0.0, kinds=("int",), lo=-1, hi=1) if "controls" in variant else []
         hist = [h for h in hist if not (h[1] and h[0] >= N)]          # a post-measurement control at the last step never acts
         mk_ctrl = lambda: (c18.build_control(d, hist) if hist else None)
-        tfun = (lambda st: 2 * np.array(st).T + target) if "callable" in variant else None
+        # memory layout of the target is not part of its value: Fortran-ordered / transposed views in half of the cases
+        lay = (lambda x: np.asfortranarray(x)) if it % 2 == 1 else (lambda x: np.ascontiguousarray(x))
+        tfun = (lambda st, t0=target.copy(): lay(2 * np.array(st).T + t0)) if "callable" in variant else None
+        info["target_layout"] = "F" if it % 2 == 1 else "C"
         info["variant"] = variant
         info["controls"] = [(k, p_) for k, p_, _ in hist]
         try:
             if variant == "plain":
-                res = quiet(oqupy.state_gradient, system=sysm, initial_state=rho0.copy(), target_derivative=target.copy(),
+                res = quiet(oqupy.state_gradient, system=sysm, initial_state=rho0.copy(), target_derivative=lay(target.copy()),
                             process_tensors=built, parameters=np.zeros((2 * N, M)), progress_type="silent")
             elif variant == "callable-target":
                 res = quiet(oqupy.state_gradient, system=sysm, initial_state=rho0.copy(), target_derivative=tfun,
                             process_tensors=built, parameters=np.zeros((2 * N, M)), progress_type="silent")
             else:
-                gp, dyn_ = quiet(compute_gradient_and_dynamics, system=sysm, initial_state=rho0.copy(), target_derivative=tfun if tfun else target.copy(),
+                gp, dyn_ = quiet(compute_gradient_and_dynamics, system=sysm, initial_state=rho0.copy(), target_derivative=tfun if tfun else lay(target.copy()),
                                  process_tensors=built, parameters=np.zeros((2 * N, M)), control=mk_ctrl(), progress_type="silent")
                 from oqupy.gradient import _chain_rule
                 pd_ = sysm.get_propagator_derivatives(0.1, np.zeros((2 * N, M)))
